@@ -669,8 +669,70 @@ func (g *gen) finish(fid int, run func() qframe.QFrame) *hframe {
 		g.w.Line(append([]string{"P", tx.Int(fid)}, physTokens(qf)...)...)
 	}
 	g.fam = append(g.fam, hf)
+	if !isErr && len(toks) > 0 && toks[0] == "K" {
+		g.keyProbe(hf)
+	}
 	g.reobserve(fid)
 	return hf
+}
+
+// keyProbe asks the column's own Comparable (the one Sort, GroupBy and Distinct use) about a few pairs of rows of a
+// new member, under drawn flags, and for the row hashes under one seed: the driver compares every answer with the
+// spec's keyCmp / keyEq on the observed cells (KC) and demands equal hashes for rows whose keys are equal (KH).
+func (g *gen) keyProbe(hf *hframe) {
+	r := g.r
+	if len(hf.cols) == 0 || hf.n == 0 || !r.P(1, 3) {
+		return
+	}
+	st := hf.qf.VerifState()
+	if len(st.Index) != hf.n {
+		return
+	}
+	c := hf.cols[r.Intn(len(hf.cols))]
+	rev, gbn, nl := r.Bool(), r.Bool(), r.Bool()
+	k := 1 + r.Intn(8)
+	toks := []string{"KC", tx.Int(hf.id), tx.HexS(c.name), tx.Bool01(rev), tx.Bool01(gbn), tx.Bool01(nl), tx.Int(k)}
+	rows := map[int]bool{}
+	var pmsg string
+	for i := 0; i < k; i++ {
+		a, b := r.Intn(hf.n), r.Intn(hf.n)
+		if r.P(1, 6) {
+			b = a
+		}
+		rows[a], rows[b] = true, true
+		res := -1
+		func() {
+			defer func() {
+				if p := recover(); p != nil {
+					pmsg = fmt.Sprint(p)
+				}
+			}()
+			res = int(hf.qf.VerifKeyCompare(c.name, rev, gbn, nl, st.Index[a], st.Index[b]))
+		}()
+		toks = append(toks, tx.Int(a), tx.Int(b), tx.Int(res))
+	}
+	g.w.Line(toks...)
+	seed := uint64(r.Intn(4))
+	htoks := []string{"KH", tx.Int(hf.id), tx.HexS(c.name), tx.Bool01(gbn), strconv.FormatUint(seed, 10), tx.Int(len(rows))}
+	for a := 0; a < hf.n; a++ {
+		if !rows[a] {
+			continue
+		}
+		var h uint64
+		func() {
+			defer func() {
+				if p := recover(); p != nil {
+					pmsg = fmt.Sprint(p)
+				}
+			}()
+			h = hf.qf.VerifKeyHash(c.name, gbn, st.Index[a], seed)
+		}()
+		htoks = append(htoks, tx.Int(a), strconv.FormatUint(h, 16))
+	}
+	g.w.Line(htoks...)
+	if pmsg != "" {
+		g.w.Line("KP", tx.Int(hf.id), tx.HexS(pmsg))
+	}
 }
 
 func (g *gen) observeSafely(qf qframe.QFrame) (toks []string, cols []colInfo, n int, isErr bool) {
@@ -1140,6 +1202,41 @@ var fn1Catalogue = []fnEntry{
 		}
 		return x
 	}},
+	{"f.str", "f", func(x float64) *string {
+		if math.IsNaN(x) {
+			return strp("nan")
+		}
+		if math.Signbit(x) {
+			return strp("neg")
+		}
+		return strp("pos")
+	}},
+	{"b.half", "b", func(x bool) float64 {
+		if x {
+			return 1.5
+		}
+		return 0.5
+	}},
+	{"b.str", "b", func(x bool) *string {
+		if x {
+			return strp("T")
+		}
+		return strp("F")
+	}},
+}
+
+// result type of a catalogue function ("i", "f", "b", "s")
+func fnResultType(fn interface{}) string {
+	switch fn.(type) {
+	case func(int) int, func(float64) int, func(bool) int, func(*string) int, func(int, int) int:
+		return "i"
+	case func(int) float64, func(float64) float64, func(bool) float64, func(*string) float64, func(float64, float64) float64:
+		return "f"
+	case func(int) bool, func(float64) bool, func(bool) bool, func(*string) bool, func(bool, bool) bool:
+		return "b"
+	default:
+		return "s"
+	}
 }
 
 var fn2Catalogue = []fnEntry{
@@ -1568,6 +1665,27 @@ func (g *gen) genExpr(f *hframe, depth int, typ string, bad bool) exprT {
 		a := g.genExpr(f, depth-1, typ, bad)
 		return exprT{qframe.Expr(op, a.e), append([]string{"X", tx.HexS(op), "1"}, a.toks...)}
 	}
+	// a user function of the Apply catalogue, registered as "my.<id>" (one for every signature SetFunc accepts): its
+	// operand type may differ from its result type
+	if r.P(1, 6) {
+		want := typ
+		if want == "e" {
+			want = "s"
+		}
+		var cands []fnEntry
+		for _, e := range fn1Catalogue {
+			if fnResultType(e.fn) == want {
+				cands = append(cands, e)
+			}
+		}
+		if len(cands) > 0 {
+			e := cands[r.Intn(len(cands))]
+			srcT := string(e.src[r.Intn(len(e.src))])
+			a := g.genExpr(f, depth-1, srcT, bad)
+			op := "my." + e.id
+			return exprT{qframe.Expr(op, a.e), append([]string{"X", tx.HexS(op), "1"}, a.toks...)}
+		}
+	}
 	// conversions into typ from another type
 	if r.P(1, 5) {
 		switch typ {
@@ -1612,6 +1730,16 @@ func overCtx() *eval.Context {
 
 func myCtx() *eval.Context {
 	ctx := eval.NewDefaultCtx()
+	for _, e := range fn1Catalogue {
+		if err := ctx.SetFunc("my."+e.id, e.fn); err != nil {
+			panic("SetFunc refuses " + e.id + ": " + err.Error())
+		}
+	}
+	for _, e := range fn2Catalogue {
+		if err := ctx.SetFunc("my."+e.id, e.fn); err != nil {
+			panic("SetFunc refuses " + e.id + ": " + err.Error())
+		}
+	}
 	_ = ctx.SetFunc("myinc", func(x int) int { return x + 1 })
 	_ = ctx.SetFunc("mysub", func(x, y int) int { return x - y })
 	_ = ctx.SetFunc("myneg", func(x float64) float64 { return -x })
